@@ -10,6 +10,11 @@ try:
 except ImportError:
     subprocess.run([sys.executable, "-m", "pip", "install", "--no-index", "--quiet",
                     "--find-links", "/opt/veriftools/wheels", "hypothesis"], check=True)
+deps = os.path.join(HERE, ".deps")
+if not os.path.isdir(os.path.join(deps, "atheris")):
+    # optional: coverage-guided tier (thorough); checks fall back to Hypothesis only without it
+    subprocess.run([sys.executable, "-m", "pip", "install", "--no-index", "--quiet", "--find-links",
+                    "/opt/veriftools/wheels", "--target", deps, "atheris"], check=False)
 for d in ("evidence", "replays/found", ".cache/jax"):
     os.makedirs(os.path.join(HERE, d), exist_ok=True)
 import hypothesis  # noqa: E402,F811
